@@ -52,6 +52,7 @@ Definition SIG_TELNET_LINES := 7%N.          (* telnet: the lines/commands repor
 Definition SIG_LDAP_MESSAGES := 8%N.
 Definition SIG_LIMITER_SUPPRESSES_REPORT := 10%N.  (* a datagram over the source's reply budget is not (fully) reported *)
 Definition SIG_LIMITER_ENDS_DATAGRAM := 11%N.   (* memcached-udp: a refusal by the limiter ends the datagram's command loop *)
+Definition SIG_TFTP_UPLOAD := 12%N.             (* tftp: an upload is not reported with the filename/mode/content of ITS transfer *)
 Definition SIG_SMTP_STALE_CHUNK := 9%N.      (* smtp: the reading before a828b58 - chunks of a transaction abandoned without RSET are reported with the next mail *)         (* ldap: not exactly one event per complete message *)
 Definition is_memcached (svc : N) : bool := beq svc SVC_MEMCACHED || beq svc SVC_MEMCACHED_UDP.
 Definition has_store (es : list event) : bool := existsb (fun e => beq (ev_ty e) EV_MC_STORE) es.
@@ -64,7 +65,11 @@ Definition case_sig (c : case) : N :=
   else if is_http_family (c_svc c) && (length (fst got) <? length (fst exp)) then SIG_HTTP_REQUEST_LOST
   else if is_http_family (c_svc c) && (length (fst got) =? length (fst exp)) then SIG_HTTP_SHORT_BODY
   else if beq (c_svc c) SVC_SMTP && obs_eqb (seg_obs (smtp_prog false (fuel_for (c_stream c)) SHello 0 []) (c_segs c)) got then SIG_SMTP_STALE_CHUNK
-  else if beq (c_svc c) (SEQ_BASE + SVC_MEMCACHED_UDP)%N then SIG_LIMITER_ENDS_DATAGRAM
+  (* sequence cases: the two limiter signatures are reserved for exactly the modelled limiter
+     behaviour; anything else a sequence gets wrong has its own signature *)
+  else if beq (c_svc c) (SEQ_BASE + SVC_MEMCACHED_UDP)%N && obs_eqb (run_model (c_svc c) (c_segs c)) got then SIG_LIMITER_ENDS_DATAGRAM
+  else if beq (c_svc c) (SEQ_BASE + SVC_TFTP)%N && obs_eqb (run_model (c_svc c) (c_segs c)) got then SIG_LIMITER_SUPPRESSES_REPORT
+  else if beq (c_svc c) (SEQ_BASE + SVC_TFTP)%N then SIG_TFTP_UPLOAD
   else if (SEQ_BASE <=? c_svc c)%N then SIG_LIMITER_SUPPRESSES_REPORT
   else if beq (c_svc c) SVC_TELNET then SIG_TELNET_LINES
   else if beq (c_svc c) SVC_LDAP then SIG_LDAP_MESSAGES
